@@ -811,3 +811,7 @@ def spec_C09(tier):
 META["C09"] = {"level": "bounded model checking, small scope: suffix.Sort executed symbolically on all short texts over a five-letter alphabet chosen for the special cases of k1.go, LCP/InvertSA on all "
                         "short texts of arbitrary bytes, matchLen on all slices up to the bound. The claim is explicitly limited: the sorting fallbacks that only long texts reach are not covered",
                "note": "bounds: see evidence.bounds and evidence.outside_bounds. " + TRUST}
+
+
+# thorough bounds that ran clean (exit 0) on the unchanged tree; the others are defined above but not registered
+THOROUGH_VALIDATED = {"C04", "C05", "C06", "C07", "C08", "C09", "C10", "C15", "C17", "C18", "C20"}
